@@ -8,8 +8,8 @@ COMMON_TB = [
 
 PROPS = {
     'C14': dict(
-        lean_modules=['Iscp.Props.C14'],
-        gen=[],
+        lean_modules=['Iscp.Props.C14', 'Iscp.Props.C14Glue'],
+        gen=['SegGlue'],
         harnesses=[dict(name='seg', pkg='./corr/seg', topic='seg', n_quick=400, n_thorough=4000, thorough_seeds=4)],
         trusted_base=COMMON_TB + [
             "modelled, not verified: QUIC/WebTransport datagram service (assumed: unordered, lossy, non-duplicating), Go map and slice semantics",
